@@ -140,6 +140,14 @@ pub fn run(case: &Value, ctx: &Ctx) -> Outcome {
                     } else {
                         cli::sfs(ctx, &a, in_flight.as_deref())
                     };
+                    if r.ok() && via != "file" && tool != "stat" && si == 1 && in_path.is_none() {
+                        // the same step with a stdout that is dead from the first byte: nothing is delivered, so the step must
+                        // not report success (a writer that leaves its last bytes to a destructor does)
+                        if let Some(data) = in_flight.as_deref() {
+                            let d = cli::sfs_dead_stdout(ctx, &a, data, "enospc");
+                            out.check(!d.ok() && !d.panicked() && !d.stderr.trim().is_empty(), || format!("toolchain/chain/{tool}-dead-sink"), || json!({"args": args, "code": d.code, "stderr": d.stderr}));
+                        }
+                    }
                     if !r.ok() {
                         out.fail(format!("toolchain/chain/{tool}-rejected-own-output{}", if r.panicked() { "-panic" } else { "" }),
                             json!({"step": si, "args": args, "code": r.code, "stderr": r.stderr, "chain": names}));
@@ -172,6 +180,17 @@ pub fn run(case: &Value, ctx: &Ctx) -> Outcome {
                             finite && t.split_once('.').map_or(0, |(_, d)| d.len()) != want_dec
                         }).map(|t| t.to_string());
                         out.check(bad.is_none(), || format!("toolchain/chain/{tool}-decimals"), || json!({"step": si, "args": args, "token": bad, "requested": want_dec}));
+                    }
+                    if via != "file" && si == 1 && id % 3 == 0 && produced.len() > 1 {
+                        // the same step into a sink that takes everything BUT THE LAST BYTE (stdout redirected to a file under a size
+                        // limit): the artefact is incomplete, so the step must not report success - whichever layer held that byte
+                        if let Some(data) = in_flight.as_deref() {
+                            let sink = format!("{}/files/chain_{id:016x}_{si}.lastbyte", ctx.work);
+                            std::fs::create_dir_all(format!("{}/files", ctx.work)).ok();
+                            let (d, written) = cli::sfs_fsize(ctx, &a, data, Some(produced.len() as u64 - 1), &sink, true);
+                            out.check(!d.ok() && !d.panicked(), || format!("toolchain/chain/{tool}-last-byte-lost"),
+                                || json!({"args": args, "code": d.code, "stderr": d.stderr, "delivered": written.len(), "complete": produced.len()}));
+                        }
                     }
                     match parse_any(&produced) {
                         Ok((sh, _, f)) => {
